@@ -15,10 +15,11 @@ reference (crossing order) and of every caller-owned message.
   cget <id> <rmask>   clist <rmask>   cpull <rmask> <uo>   cpullid <id> <rmask> <uo>   cclose <i>
   audit
   ev reset | ev sub <lossy> <mask> | ev send <ADD|UPDATE|REMOVE|REPLACE> <id> <old|-> <new|-> | ev audit
+  ev vsub <lossy> <mask> | ev vsend <new>     (subscribers / writes of a resource.Value; events print as UPDATE,0,-,<new>)
      (event objects, Events.lean: after a send every backpressure subscriber forwards, every lossy one merges in;
       the answer lists, per backpressure subscriber, `#<canonical event ref>:<event>` of what its consumer received)
 
-msg = `a,b,c,d`; mask = `-` (nil) | `0` (empty) | letters of `abcd`; callbacks: `-` | `add:<f>` | `set:<f>:<n>`;
+expect = `-` | msg | `chk:<field>:<n>:<FP|IA>` (named WithExpectedCheck); msg = `a,b,c,d`; mask = `-` (nil) | `0` (empty) | letters of `abcd`; callbacks: `-` | `add:<f>` | `set:<f>:<n>`;
 flags: letters of `c` (create if absent) `x` (expect absent) `m` (allow missing) or `-`.
 -/
 namespace ScVerif.C07
@@ -60,8 +61,27 @@ def parseCb? (s : String) : Option (Option (Cb Msg)) :=
     pure (some (cbSet i x))
   | _ => none
 
-def mkOpts (um rm : Option FMask) (b a : Option (Cb Msg)) (e : Option Msg) (flags : String) : WOpts Msg FMask :=
-  { umask := um, rmask := rm, before := b, after := a, expected := e,
+/-- named `WithExpectedCheck` callbacks shared with the harness: `chk:<field>:<n>:<FP|IA>` rejects (FailedPrecondition /
+InvalidArgument) when field `f` of the old message (all zeros when there is none) equals `n` -/
+def cbCheck (f : Nat) (n : Int) (e : Err) : Option Msg → Option Err := fun o =>
+  if (match o with | some m => m.get f | none => 0) = n then some e else none
+
+/-- the precondition token: `-`, an expected message `a,b,c,d`, or a named check -/
+structure Pre where
+  expected : Option Msg := none
+  check : Option (Option Msg → Option Err) := none
+
+def parsePre? (s : String) : Option Pre :=
+  match s.splitOn ":" with
+  | ["chk", f, n, code] => do
+    let i ← (f.toList.head?).bind fieldIdx?
+    let x ← parseInt? n
+    let e ← if code = "FP" then some Err.failedPrecondition else if code = "IA" then some Err.invalidArgument else none
+    pure { check := some (cbCheck i x e) }
+  | _ => (parseOptMsg? s).map fun e => { expected := e }
+
+def mkOpts (um rm : Option FMask) (b a : Option (Cb Msg)) (e : Pre) (flags : String) : WOpts Msg FMask :=
+  { umask := um, rmask := rm, before := b, after := a, expected := e.expected, check := e.check,
     createIfAbsent := flags.toList.contains 'c', expectAbsent := flags.toList.contains 'x',
     allowMissing := flags.toList.contains 'm' }
 
@@ -70,14 +90,14 @@ def parseOp? (toks : List String) : Option (Op Msg FMask) :=
   | ["alloc", m] => do pure (.alloc (← parseMsg? m))
   | ["mutate", k, m] => do pure (.mutate (← parseNat? k) (← parseMsg? m))
   | ["vset", k, um, rm, b, a, e] => do
-    pure (.vset (← parseNat? k) (mkOpts (← parseMask? um) (← parseMask? rm) (← parseCb? b) (← parseCb? a) (← parseOptMsg? e) "-"))
+    pure (.vset (← parseNat? k) (mkOpts (← parseMask? um) (← parseMask? rm) (← parseCb? b) (← parseCb? a) (← parsePre? e) "-"))
   | ["vget", rm] => do pure (.vget (← parseMask? rm))
   | ["vpull", rm, uo] => do pure (.vpull (← parseMask? rm) (← parseBool? uo))
   | ["vclose", i] => do pure (.vclose (← parseNat? i))
   | ["cupd", id, k, um, rm, b, a, e, fl] => do
-    pure (.cupd (← parseNat? id) (← parseNat? k) (mkOpts (← parseMask? um) (← parseMask? rm) (← parseCb? b) (← parseCb? a) (← parseOptMsg? e) fl))
+    pure (.cupd (← parseNat? id) (← parseNat? k) (mkOpts (← parseMask? um) (← parseMask? rm) (← parseCb? b) (← parseCb? a) (← parsePre? e) fl))
   | ["cdel", id, e, fl] => do
-    pure (.cdel (← parseNat? id) (mkOpts none none none none (← parseOptMsg? e) fl))
+    pure (.cdel (← parseNat? id) (mkOpts none none none none (← parsePre? e) fl))
   | ["cget", id, rm] => do pure (.cget (← parseNat? id) (← parseMask? rm))
   | ["clist", rm] => do pure (.clist (← parseMask? rm))
   | ["cpull", rm, uo] => do pure (.cpull (← parseMask? rm) (← parseBool? uo))
@@ -134,6 +154,7 @@ def handleCore (s : CoreState) (toks : List String) : CoreState × String :=
 def handle (s : DrvState) (toks : List String) : DrvState × String :=
   match toks with
   | "rim" :: "mode" :: rest => (s, Rim3.handleMode rest)
+  | "rim" :: "positions" :: rest => (s, Rim3.handlePositions rest)
   | "rim" :: "plant" :: rest => (s, Rim3.handlePlant rest false)
   | "rim" :: "plant-legacy" :: rest => (s, Rim3.handlePlant rest true)
   | "rim" :: rest => (s, handleRim rest)
